@@ -551,12 +551,12 @@ def c08(ctx):
                 "state (document by content, commitments of the next keys, anchor origin, flags) must be the "
                 "specification's.")
     ctx.assumptions = APPLIER_ASSUME[:1] + [
-        "one update does not add and remove the same id (what the caller asked for would be ambiguous)",
         "the empty document is not among the options (it yields a request without patches, which is not one of the "
         "three kinds of input the statement requires the builders to refuse)",
         "the Sidetree client has no anchoring-window option: windowed steps run at the builder level only"]
-    kts = kts_for(ctx, 2)
-    runs = [(kts[0], kts[1], 256, 3)] if ctx.tier == "quick" else \
+    kts = kts_for(ctx, 5)
+    # quick: one pair of key types in depth, the other three key types in short lifecycles
+    runs = [(kts[0], kts[1], 256, 3), (kts[2], kts[3], 512, 2), (kts[4], kts[2], 256, 2)] if ctx.tier == "quick" else \
         [(a, b, h, 4) for (a, b, h) in [("ed", "p256", 256), ("p256", "k1", 512), ("p384", "p521", 256), ("k1", "ed", 512), ("p521", "p384", 512)]]
     first = None
     for ukt, rkt, h, ml in runs:
@@ -961,6 +961,15 @@ def c12(ctx):
     ctx.assumptions = APPLIER_ASSUME + ["aliasing between result and input without mutation is not flagged"]
     c12_applier(ctx)
     c12_composer(ctx)
+    # the hostile input space of Robust.tla (malformed / corrupted patches and requests: the calls that fail or
+    # degrade), with the inputs digested before and after each real call
+    mp = 15 if ctx.tier == "quick" else 47
+    _, summ = ctx.tlc_pipe("MC_Robust.tla", "MC_Robust.cfg", ["robust-replay", "-eps", "ApplyPatches,Apply"],
+                           overrides={"MaxPos": mp, "MaxChain": 1}, workers=4, timeout=3000,
+                           env_extra={"VERIF_ROBUST_MUTATION": "1"},
+                           label="corrupted patches / requests (Robust.tla plans for ApplyPatches and Apply): inputs unchanged")
+    if not ctx.violations and summ["cases"] < 500:
+        raise Infra("hostile-input stage did not run")
 
 
 
